@@ -38,7 +38,13 @@ func genURLSchema(r *Rng, o *Out) *jsonapi.Schema {
 					target = "ghost" // not in the schema: C07 speaks of every schema
 					o.stat("schema.dangling-rel")
 				}
-				putRel(&t, jsonapi.Rel{FromType: names[i], FromName: rn, ToOne: r.bool(), ToType: target})
+				rel := jsonapi.Rel{FromType: names[i], FromName: rn, ToOne: r.bool(), ToType: target}
+				if r.chance(1, 3) {
+					// one half of a two-way relationship (the other half may or may not exist)
+					rel.ToName = urlRelNames[r.IntN(len(urlRelNames))]
+					rel.FromOne = r.bool()
+				}
+				putRel(&t, rel)
 			}
 		}
 		putType(s, t)
@@ -97,7 +103,7 @@ func genPath(r *Rng, s *jsonapi.Schema, o *Out) string {
 var filterVals = []string{"", "label", "%5Cu0020%7Bx", "+%7Bx", "%20%7B%22f%22%3A1%7D", "%C2%A0%7Bx", "%09%7B", "x%7B", "%5Cu007ba", "%5Cu007b%22f%22", "a%26b", "a%23b", "a%5Cb", "a%22b", "a+b", "%7B%7D", "%7B", "a%25", "%7B%22f%22%3A%22name%22%2C%22o%22%3A%22%3D%22%2C%22v%22%3A%22x%26y%22%7D",
 	"%7B%22o%22%3A%22and%22%2C%22v%22%3A%5B%7B%22f%22%3A%22n%22%2C%22o%22%3A%22%3C%22%2C%22v%22%3A1%7D%2C%7B%22o%22%3A%22or%22%2C%22v%22%3A%5B%5D%7D%5D%7D",
 	"%7B%22o%22%3A%22and%22%2C%22v%22%3A1%7D", "x%0Ay", "%E9",
-	"ring%5Cu0007", "a%5Cu000bb", "a%7Fb", "%5Cu001f", "tab%5Ct", "nl%5Cn"} // the last six: control characters, which Go and JSON escape differently
+	"%7B%22f%22%3A%22name%22%2C%22o%22%3A%22%3D%22%2C%22v%22%3A%22a%FFb%22%7D", "ring%5Cu0007", "a%5Cu000bb", "a%7Fb", "%5Cu001f", "tab%5Ct", "nl%5Cn"} // the last six: control characters, which Go and JSON escape differently
 var pageVals = []string{"", "1", "10", "007", "-1", "abc", "a%26b", "+7", "a%23", "1e3", "9223372036854775808"}
 
 func genQuery(r *Rng, s *jsonapi.Schema, o *Out) []string {
